@@ -353,7 +353,7 @@ func crossView(m *model.Model) bool {
 		return false
 	}
 	for _, x := range m.Scopes() {
-		if !m.GStrict(x, nil).Acyclic() {
+		if !m.GScope(x, nil).Acyclic() {
 			return false
 		}
 	}
@@ -387,6 +387,23 @@ func provideCycleRule(prefix string, m *model.Model, st *h.Step, deferred bool, 
 				vs = append(vs, Violation{Rule: prefix + "/cycle-closing-provide-accepted", Detail: fmt.Sprintf("%s closes a cycle as seen from s%d but => %s", st.Op, x, st.V.Class())})
 			}
 			return vs
+		}
+	}
+	// a cycle that run-time resolution really traverses (every constructor
+	// resolving from the scope it was provided to) and whose members are all
+	// visible from one scope is a cycle "as seen from a single scope" too,
+	// even where a nearer provider shadows one of its edges for that scope
+	mm := m.Clone()
+	mm.Ctors = append(mm.Ctors, extra)
+	if !runtimeGraph(mm).Acyclic() {
+		for _, x := range m.Subtree(extra.Home) {
+			if !m.GScope(x, extra).Acyclic() {
+				hit("provide_must_be_cycle_runtime")
+				if !st.V.Cycle {
+					vs = append(vs, Violation{Rule: prefix + "/cycle-closing-provide-accepted", Detail: fmt.Sprintf("%s closes a dependency cycle that run-time resolution traverses and that is visible from s%d, but => %s", st.Op, x, st.V.Class())})
+				}
+				return vs
+			}
 		}
 	}
 	hit("provide_no_strict_cycle")
@@ -793,6 +810,12 @@ func c05HistoryUnits(tier string) []Unit {
 		a := alpha{scopes: []int{0, 1}, ctors: []*uFunc{rAB, pB, rBC, rCA, rAoB}, export: true, invokes: []*uFunc{iA, iB, i0}}
 		units = append(units, Unit{Sc: &Scenario{Name: fmt.Sprintf("histories/ring/defer=%v", def), Cfg: h.Config{Defer: def}, Prefix: prefixChild,
 			Alphabet: a.ops(), Depth: d, Budget: b, Allowed: onceEach, Monitors: []explore.Monitor{c05Monitor}}})
+		// 1b. a four-ring whose edge is shadowed for the scope that sees the
+		// whole ring (a second, nearer provider of one key): run-time
+		// resolution still traverses the ring
+		sh := alpha{scopes: []int{0, 1}, ctors: []*uFunc{rAB, rBC, rCD, rDA, pB0}, export: true, invokes: []*uFunc{iA}}
+		units = append(units, Unit{Sc: &Scenario{Name: fmt.Sprintf("histories/shadowed-ring/defer=%v", def), Cfg: h.Config{Defer: def}, Prefix: prefixChild,
+			Alphabet: sh.ops(), Depth: 6, Budget: explore.Budget{Provides: 5, Invokes: 1, Rejected: 1}, Allowed: onceEach, Monitors: []explore.Monitor{c05Monitor}}})
 		// 2. the same pieces registered from inside a running Invoke
 		var ops []Op
 		pieces := []*uFunc{rAB, pB, pDd}
